@@ -2684,14 +2684,21 @@ static WUR iwrc _lx_del_sblk_lw(struct iwlctx *lx, struct sblk *sblk, uint8_t id
           cur->cnpos = 0;
           cur->skip_next = 1;
         }
-      } else if (cur->cn->n[0] == sblk_blkn) {
-        memcpy(cur->cn, lx->plower[0], sizeof(*cur->cn));
-        cur->cn->kvblk = 0;
-        cur->cn->flags &= (SBLK_PERSISTENT_FLAGS | SBLK_DB);
       } else if (cur->cn->p0 == sblk_blkn) {
         memcpy(cur->cn, nb, sizeof(*nb));
         cur->cn->kvblk = 0;
         cur->cn->flags &= (SBLK_PERSISTENT_FLAGS | SBLK_DB);
+      } else {
+        // A cursor may stand on a predecessor of the removed node at ANY level: its node copy is written back as a
+        // whole by iwkv_cursor_set(), a stale upper-level link would bring the freed block back into the skip list
+        for (int i = 0; i <= lx->nlvl; ++i) {
+          if ((cur->cn->n[i] == sblk_blkn) && lx->plower[i] && (lx->plower[i]->addr == cur->cn->addr)) {
+            memcpy(cur->cn, lx->plower[i], sizeof(*cur->cn));
+            cur->cn->kvblk = 0;
+            cur->cn->flags &= (SBLK_PERSISTENT_FLAGS | SBLK_DB);
+            break;
+          }
+        }
       }
     }
   }
